@@ -11,6 +11,11 @@ def rand(kind, count, tier):
     return dict(how="rand", kind=kind, count=count, tier=tier)
 
 
+def json_dumps(p):
+    import json
+    return json.dumps(p.get("steps", []))
+
+
 def kinds_in(tree, acc=None):
     acc = set() if acc is None else acc
     if isinstance(tree, dict):
@@ -163,6 +168,25 @@ PROPS = {
              "when source/buffer/map really differ; hashes recomputed in a second thread and a second process; non-trivial = the pair "
              "is observably different",
         nontrivial=lambda p: True,
+    ),
+    "C15": dict(
+        gens=[tlc("c15"), rand("json_maps", 500, "quick"), rand("json_maps", 30000, "thorough")],
+        tv_props=["C15"],
+        must_fire=["C15.serialises", "C15.writer_equals_json", "C15.document_matches_value", "C15.round_trip",
+                   "C15.entry_points_agree", "C15.document_reads_as_value"],
+        rule="SourceMap values whose strings contain quotes, backslashes, control characters, U+2028/2029 and astral characters, optional "
+             "fields present/absent; hand-built documents with null entries, missing arrays, reordered and unknown keys; non-trivial = "
+             "a string needs escaping or a field is absent/null",
+        nontrivial=lambda p: True,
+    ),
+    "C16": dict(
+        gens=[tlc("c16", "quick"), tlc("c16full", "thorough"), rand("ropes", 1500, "quick"), rand("ropes", 100000, "thorough")],
+        tv_props=["C16"],
+        must_fire=["C16.definedness_agrees", "C16.no_panic", "C16.unary_observers", "C16.binary_observers", "C16.byte_slices"],
+        rule="pairs of rope expressions (new / from / from_iter / add / append / byte-slice / k-th line, nested to depth 2-3) over "
+             "pieces containing the empty string, line breaks and 1-4 byte characters; every unary observer, both binary observers in "
+             "both directions, every slice range; non-trivial = a multi-piece rope is involved",
+        nontrivial=lambda p: any(k in json_dumps(p) for k in ("from_iter", "append", "add")),
     ),
     "C17": dict(
         gens=[tlc("c01"), rand("stream_any", 400, "quick"), rand("wild", 600, "quick"), rand("decoder_junk", 300, "quick"),
